@@ -18,6 +18,8 @@ def check(ctx):
     S.rule_stale_table(ctx, "C03.T1", rr)
     ctx.notes["exhaustive"] = True
     S.rule_order_only(ctx, "C03.T2", rr)
+    from .c18 import rule_normaliser_frames
+    rule_normaliser_frames(ctx, "C03.T2")
     S.rule_owner_writes_only(ctx, "C03.T3", rr)
     S.rule_every_stale_entry_rebuilt(ctx, "C03.T4", rr)
     S.rule_ancestor_closure(ctx, "C03.T5", rr)
